@@ -347,6 +347,84 @@ def onboard_carried_out(run, rid="R7"):
                           "device (the bring-up goes on, the admin tool says `unlocked`) or the other way round")
 
 
+def new_pin_verdicts(run, rid="R7"):
+    """new_pin of both dongle classes reports what the device said (shared with C10 under a prefix)."""
+    P, A = run.P, run.A
+    from sa.decide import Walker, cmp_parts, return_values
+    from sa.layout import Layout
+    LD = P.cls("ledger.hsm2dongle.HSM2Dongle")
+    SD = P.cls("sgx.hsm2dongle.HSM2DongleSGX")
+    PVd = Prov(A)
+    # SGX: one exchange, byte 2 of the answer is 1 iff changed
+    fn = P.method(SD, "new_pin")
+    rv = return_values(A, fn, SD, PVd)
+    ok = len(rv) == 1
+    if ok:
+        ok = False
+        try:
+            e = ast.parse(next(iter(rv)), mode="eval").body
+        except SyntaxError:
+            e = None
+        cp = cmp_parts(e) if e is not None else None
+        if cp is not None:
+            l, op, r = cp
+            if isinstance(l, ast.Subscript) and isinstance(l.value, ast.Call) and call_name(l.value) == "_send_command" and len(l.value.args) == 2:
+                oki, iv = try_fold(P, l.slice, fn, SD)
+                okr, rv_ = try_fold(P, r, fn, SD)
+                m_ = P.const_eval(l.value.args[0], fn.module, cls=SD)
+                L = Layout(lambda e_: try_fold(P, e_, fn, SD))
+                ok = oki and okr and unwrap(iv) == 2 and (op, unwrap(rv_)) in (("==", 1),) and isinstance(m_, EnumMember) and m_.name == "SGX_CHANGE_PASSWORD" \
+                    and L.canon(_strip(norm(l.value.args[1]))) == f"u8(0) | {fn.params[1]}"
+    run.check(rid, ok, "HSM2DongleSGX.new_pin reports the device's verdict (answer byte 2 == 1) for SGX_CHANGE_PASSWORD | 0 | pin", key="HSM2DongleSGX.new_pin|verdict", where=fn.loc(),
+              message=f"HSM2DongleSGX.new_pin returns {sorted(rv)[:2]}; expected `<answer to SGX_CHANGE_PASSWORD carrying u8(0) | pin>[2] == 1`: a refused change would be committed to the "
+                      "PIN file (or an accepted one discarded)")
+    # Ledger: True after SEND_PIN.. + CHANGE_PIN completed; False exactly for the device's INVALID_PIN error; any other device error propagates
+    fn = P.method(LD, "new_pin")
+    g = A.cfg(fn, LD)
+
+    def latom(e):
+        cp = cmp_parts(e)
+        if cp is None:
+            return None
+        l, op, r = cp
+        if op in ("==", "!=") and _strip(norm(l)).endswith(".error_code"):
+            try:
+                mv = P.const_eval(r, fn.module, cls=LD)
+            except (Unknown, AnalysisError):
+                mv = None
+            if isinstance(mv, EnumMember) and mv.name == "INVALID_PIN":
+                return ("INVALID_PIN", op == "==")
+        return None
+    n = 0
+    for lf in Walker(A, fn, LD, latom, follow_exc=True, max_leaves=64).walk(g.entry):
+        hs = [x.ast for x in lf.path if x.kind == "handler" and isinstance(x.ast, ast.ExceptHandler)]
+        unknown = sorted(k[1:] for k in lf.pc if isinstance(k, str) and k.startswith("?"))
+        where = fn.loc(lf.node.ast) if lf.node.ast is not None else fn.loc()
+        got = lf.kind
+        if lf.kind == "return":
+            got = f"return {_strip(norm(lf.deep(lf.node.ast.value))) if lf.node.ast.value is not None else None}"
+        n += 1
+        if unknown:
+            run.check(rid, False, "HSM2Dongle.new_pin decides on the device's error code only", key=f"HSM2Dongle.new_pin|extra|{';'.join(unknown)[:40]}", where=where,
+                      message=f"HSM2Dongle.new_pin decides on `{'`, `'.join(unknown)[:100]}`")
+            continue
+        if hs:
+            inv = lf.pc.get("INVALID_PIN")
+            want = "return False" if inv else "raise"
+            okh = norm(hs[-1].type) == "HSM2DongleErrorResult" and inv is not None and got == want
+            run.check(rid, okh, f"HSM2Dongle.new_pin: a device error is {'a refused PIN' if inv else 'propagated'}", key=f"HSM2Dongle.new_pin|handler|{inv}", where=where,
+                      message=f"HSM2Dongle.new_pin, device error with INVALID_PIN={inv}: the method does `{got}`, expected `{want}` (False means `the device refused this PIN`: only "
+                              "its INVALID_PIN answer says so; anything else must not be taken for a verdict)")
+        else:
+            calls = [call_name(v_) for k_, st_, v_ in lf.effects if k_ == "expr" and isinstance(v_, ast.Call)]
+            sent = [v_ for k_, st_, v_ in lf.effects if k_ == "expr" and isinstance(v_, ast.Call) and call_name(v_) == "_send_command"]
+            okn = got == "return True" and "_send_pin" in calls and len(sent) == 1 and isinstance(P.const_eval(sent[0].args[0], fn.module, cls=LD), EnumMember) \
+                and P.const_eval(sent[0].args[0], fn.module, cls=LD).name == "CHANGE_PIN" and calls.index("_send_pin") < calls.index("_send_command")
+            run.check(rid, okn, "HSM2Dongle.new_pin: True after the PIN and CHANGE_PIN went through", key="HSM2Dongle.new_pin|success", where=where,
+                      message=f"HSM2Dongle.new_pin without a device error does `{got}` after {calls}; expected the PIN relay, then CHANGE_PIN, then True")
+    run.floor(rid, "outcome cases of HSM2Dongle.new_pin", n, 3)
+
+
 def _verdict_respected(run, rid="R7"):
     """The admin commands report what the device said: a refused unlock / PIN change is an error, an accepted one is not."""
     P, A = run.P, run.A
@@ -390,6 +468,7 @@ def run(run):
     _onboard(run, F, PV)
     onboard_carried_out(run, "R7")
     _verdict_respected(run, "R7")
+    new_pin_verdicts(run, "R7")
     _unlock(run, F, PV)
     # "only to a device that is in bootloader mode ... is not yet onboarded / only to an onboarded device": mode and onboarded flag are the device's own
     # answers for every dongle class (rule of C09, prefix B.)
